@@ -62,13 +62,28 @@ Proof.
   - apply good_mark_syncing; exact Hg.
 Qed.
 
+Lemma good_scan_table c t v b p :
+  good b p -> published p <> None ->
+  good b (fst (scan_table c t v b p)) /\ (snd (scan_table c t v b p) = false -> published (fst (scan_table c t v b p)) <> None).
+Proof.
+  intros Hg Hp. pose proof Hg as (_ & Hb & _). unfold scan_table.
+  destruct (Nat.ltb _ _); [destruct (Nat.eqb _ 0)|]; cbn [fst snd].
+  - split; [apply good_published; exact Hb|intros _; discriminate].
+  - split; [apply good_set_broken; exact Hg|discriminate].
+  - split; [exact Hg|intros _; exact Hp].
+Qed.
+
 Lemma good_delta c f b p v : good b p -> published p = Some v -> good b (fst (delta c f b p v)).
 Proof.
-  intros Hg Hv. unfold delta. break; cbn.
-  - apply good_fail_query; exact Hg.
-  - exact Hg.
-  - apply good_set_broken; exact Hg.
-  - apply good_reset_errors; [exact Hg|congruence].
+  intros Hg Hv. assert (Hp : published p <> None) by congruence. unfold delta.
+  destruct (negb (b_ok b)); cbn [fst]; [apply good_fail_query; exact Hg|].
+  destruct (restarted p b); cbn [fst]; [exact Hg|].
+  destruct (f_scan f); cbn [fst]; [|apply good_reset_errors; assumption].
+  destruct (good_scan_table c (c_hosts c) v b p Hg Hp) as [G1 P1].
+  destruct (snd (scan_table c (c_hosts c) v b p)); cbn [fst]; [exact G1|].
+  destruct (good_scan_table c (c_svcs c) v b _ G1 (P1 eq_refl)) as [G2 P2].
+  destruct (snd (scan_table c (c_svcs c) v b _)); cbn [fst]; [exact G2|].
+  apply good_reset_errors; [exact G2|apply P2; reflexivity].
 Qed.
 
 Lemma good_full_update c b p v : good b p -> published p = Some v -> good b (fst (full_update c b p v)).
@@ -159,13 +174,26 @@ Qed.
 Lemma pub_ok_finish c f b p r : pub_ok b p (fst r) -> pub_ok b p (finish c f b r).
 Proof. intros H; unfold finish; destruct (snd r); [apply pub_ok_rebuild|]; exact H. Qed.
 
+Lemma pub_ok_scan_table c t v b p q : pub_ok b p q -> pub_ok b p (fst (scan_table c t v b q)).
+Proof.
+  intros H. unfold scan_table.
+  destruct (Nat.ltb _ _); [destruct (Nat.eqb _ 0)|]; cbn [fst].
+  - right; right; reflexivity.
+  - right; left; reflexivity.
+  - exact H.
+Qed.
+
 Lemma pub_ok_delta c f b p v : pub_ok b p (fst (delta c f b p v)).
 Proof.
-  unfold delta. break; cbn [fst].
-  - apply pub_ok_fail, pub_ok_refl.
-  - apply pub_ok_refl.
-  - right; left; reflexivity.
-  - left; reflexivity.
+  unfold delta.
+  destruct (negb (b_ok b)); cbn [fst]; [apply pub_ok_fail, pub_ok_refl|].
+  destruct (restarted p b); cbn [fst]; [apply pub_ok_refl|].
+  destruct (f_scan f); cbn [fst]; [|left; reflexivity].
+  pose proof (pub_ok_scan_table c (c_hosts c) v b p p (pub_ok_refl b p)) as H1.
+  destruct (snd (scan_table c (c_hosts c) v b p)); cbn [fst]; [exact H1|].
+  pose proof (pub_ok_scan_table c (c_svcs c) v b p _ H1) as H2.
+  destruct (snd (scan_table c (c_svcs c) v b _)); cbn [fst]; [exact H2|].
+  exact H2.
 Qed.
 
 Lemma pub_ok_full c b p v : pub_ok b p (fst (full_update c b p v)).
@@ -318,8 +346,8 @@ Proof.
   apply synced_fail_query, synced_mark_syncing; exact H.
 Qed.
 
-Lemma more_objects_same c b : more_objects c (b_ver b) b = false.
-Proof. unfold more_objects. rewrite !Nat.ltb_irrefl. reflexivity. Qed.
+Lemma scan_table_same c t b p : scan_table c t (b_ver b) b p = (p, false).
+Proof. unfold scan_table. rewrite Nat.ltb_irrefl. reflexivity. Qed.
 
 Lemma synced_delta c f b p v :
   good b p -> synced b p -> published p = Some v -> synced b (fst (delta c f b p v)).
@@ -327,11 +355,18 @@ Proof.
   intros Hg H Hv. unfold delta.
   destruct (negb (b_ok b)); cbn [fst]; [apply synced_fail_query; exact H|].
   destruct (restarted p b) eqn:Hr; cbn [fst]; [exact H|].
-  destruct (f_scan f && more_objects c v b) eqn:Hm; cbn [fst].
-  - intros Hi. unfold set_broken in Hi; cbn in Hi. exfalso.
-    destruct (H Hi) as [_ [Hp|Hp]]; [congruence|].
-    rewrite Hv in Hp; inversion Hp; subst v. rewrite more_objects_same, andb_false_r in Hm. discriminate Hm.
-  - intros Hi. unfold reset_errors in *; cbn in *. destruct (H Hi) as [_ Hp]. split; [discriminate|exact Hp].
+  assert (Hre : synced b (reset_errors p)).
+  { intros Hi. unfold reset_errors in *; cbn in *. destruct (H Hi) as [_ Hp]. split; [discriminate|exact Hp]. }
+  destruct (f_scan f); cbn [fst]; [|exact Hre].
+  (* the restart check passed: the peer carries the backend's identity (it has data, so an identity),
+     hence serves the current version and the scan finds nothing *)
+  assert (Hi : ident p = b_ident b).
+  { destruct Hg as (_ & _ & H3 & _). rewrite Hv in H3. destruct H3 as [Hn _].
+    unfold restarted in Hr. apply andb_false_iff in Hr. destruct Hr as [Hr|Hr]; apply negb_false_iff, N.eqb_eq in Hr;
+      [contradiction|exact Hr]. }
+  destruct (H Hi) as [_ [Hp|Hp]]; [congruence|].
+  rewrite Hv in Hp; inversion Hp; subst v.
+  rewrite !scan_table_same; cbn [fst snd]. exact Hre.
 Qed.
 
 Lemma synced_full c b p v : synced b p -> synced b (fst (full_update c b p v)).
@@ -404,7 +439,8 @@ Proof.
       - exact Hr. }
     destruct (Hs Hi) as [_ [Hp|Hp]]; [congruence|].
     rewrite Hv in Hp; inversion Hp; subst v.
-    rewrite more_objects_same, andb_false_r. unfold finish; cbn [fst snd]. unfold reset_errors. rewrite Hv, Hi. reflexivity. }
+    rewrite !scan_table_same; cbn [fst snd].
+    destruct (f_scan f); unfold finish; cbn [fst snd]; unfold reset_errors; rewrite Hv, Hi; reflexivity. }
   assert (Hfull : forall v, published p = Some v ->
             finish c f b (full_update c b p v) = mkP (Some (b_ver b)) (b_ident b) Up false true).
   { intros v Hv. unfold full_update. rewrite Hok; cbn [negb].
